@@ -120,8 +120,21 @@ impl TransportSenderT for MockSender {
 					let echo = shared.auto_answer.lock().clone();
 					if let Some(tx) = echo {
 						if let Ok(v) = serde_json::from_str::<Value>(&msg) {
-							if !v["id"].is_null() && v["method"].is_string() {
-								let _ = tx.send(Incoming::Text(serde_json::json!({"jsonrpc":"2.0","id":v["id"],"result":v["method"]}).to_string()));
+							let answer = |v: &Value| (!v["id"].is_null() && v["method"].is_string()).then(|| serde_json::json!({"jsonrpc":"2.0","id":v["id"],"result":v["method"]}));
+							match &v {
+								// a batch is answered by one array, last entry first
+								Value::Array(entries) => {
+									let mut a: Vec<Value> = entries.iter().filter_map(answer).collect();
+									a.reverse();
+									if !a.is_empty() {
+										let _ = tx.send(Incoming::Text(Value::Array(a).to_string()));
+									}
+								}
+								single => {
+									if let Some(a) = answer(single) {
+										let _ = tx.send(Incoming::Text(a.to_string()));
+									}
+								}
 							}
 						}
 					}
